@@ -29,6 +29,8 @@ struct Scenario {
     int64_t idle_tail_s = 0;               // after the script: keep advancing time for this long (C09 silence, C12)
     bool expect_all_success = true;        // C02-style liveness oracle applies
     std::string expect_note;
+    // name without a trailing numeric id: signatures are keyed on the scenario family
+    std::string family() const { size_t p = name.find_last_of('-'); if (p != std::string::npos && p + 1 < name.size() && name.find_first_not_of("0123456789", p + 1) == std::string::npos) return name.substr(0, p); return name; }
 };
 
 // scenario sets per property; tier 0 quick, 1 thorough
